@@ -219,6 +219,20 @@ pub fn gen_session(rng: &mut Rng, o: &GenOpts) -> (SenderSpec, Vec<ObjSpec>) {
     spec.fdt_start_id = *rng.pick(&[0u32, 1, 7, 0xFFFFE, 0xFFFFF]);
     spec.toi_bits = *rng.pick(&[16u8, 32, 48, 64, 80, 112]);
     spec.toi_initial = Some(*rng.pick(&[1u128, 2, 100, 0xFFFE, 0xFFFF]));
+    // one session in three starts its TOIs just below an inner 16-bit boundary of the width, at the top of the
+    // width (wrap-around inside the session) or at the library's random default
+    if rng.chance(1, 3) {
+        let w = spec.toi_bits as u32;
+        let ks: Vec<u32> = (16..=w).step_by(16).collect();
+        let k = *rng.pick(&ks);
+        let top = if k >= 128 { u128::MAX } else { (1u128 << k) - 1 };
+        spec.toi_initial = match rng.below(4) {
+            0 => None,
+            1 => Some(top),
+            2 => Some(top - 1),
+            _ => Some((top >> 1) + 1 + rng.below(1000) as u128),
+        };
+    }
     if rng.chance(1, 3) {
         spec.groups = Some(vec!["sg".to_string(), rng.pick(&hostile_strings()).to_string()]);
     }
